@@ -955,6 +955,30 @@ fn gen_c08(rng: &mut Rng) -> Plan {
         let dry = gen::dry_run(&plan);
         plan.faults = vec![gen::gen_fault(rng, &dry)];
     }
+    // rarely: the transport breaks during a long quiet stretch (10 s - 1 h without any request).
+    // Nothing is written meanwhile by the code as it stands, so the failure is met by the
+    // request that ends the stretch (write side) or by the pending idle read (both sides); a
+    // client with traffic of its own on a long timer meets it there, with no caller in hand.
+    if rng.chance(1, 30) {
+        let mut ids = Ids(50_000);
+        gen::add_long_quiet(rng, &mut plan, &mut ids);
+        let quiet = plan
+            .callers
+            .last()
+            .and_then(|c| match c.first() {
+                Some(Op::Think { ms }) => Some(*ms),
+                _ => None,
+            })
+            .unwrap_or(10_500);
+        let busy = gen::rough_span(&Plan { callers: plan.callers[..plan.callers.len() - 1].to_vec(), ..plan.clone() });
+        let at = busy + 1_000 + rng.below(quiet.saturating_sub(busy + 2_000).max(1));
+        let kind = match rng.below(4) {
+            0 | 1 => FaultKind::WriteErr((*rng.pick(&["BrokenPipe", "ConnectionReset", "TimedOut"])).to_string()),
+            2 => FaultKind::Reset,
+            _ => FaultKind::ReadErr("ConnectionReset".into()),
+        };
+        plan.faults = vec![Fault { kind, trigger: Trigger::AtTime(at) }];
+    }
     // rarely: the application has fallen behind with its notifications (dozens to hundreds
     // unread) when the connection fails while idle; once it catches up it must find every
     // change and then the closing event — the only place this failure can surface
